@@ -90,6 +90,20 @@ let run_tree (toks : string array) =
   let ops = parse_ops toks.(4) w in
   let t = ref mst_init in
   let first = ref true in
+  if toks.(0) = "Tf" then begin
+    (* large case: hash results and the final state only *)
+    let mark = Buffer.length buf in
+    (try
+      List.iter (fun op ->
+        let m = Buffer.length buf in
+        t := apply_op ki !t op;
+        (* apply_op printed "H=..|" for a hash op: turn the trailing '|' into ';' *)
+        if Buffer.length buf > m then begin
+          let s = Buffer.sub buf m (Buffer.length buf - m - 1) in
+          Buffer.truncate buf m; add s; add ";" end) ops;
+      observe_state !t
+    with Exit -> Buffer.truncate buf mark; add "PANIC")
+  end else
   (try
     List.iter (fun op ->
       if not !first then add ";"; first := false;
@@ -181,7 +195,7 @@ let () =
         Buffer.clear buf;
         let toks = Array.of_list (String.split_on_char ' ' line) in
         (match toks.(0) with
-         | "T" | "Tb" -> run_tree toks
+         | "T" | "Tb" | "Tf" -> run_tree toks
          | "P" -> run_pair toks
          | "D" -> run_list toks
          | "L" -> run_level toks
